@@ -59,6 +59,19 @@ func genC11Case(t *rapid.T) C11Case {
 			idp.Endpoints[name] = world.EndpointSpec{Path: rapid.SampledFrom(c11Paths[name]).Draw(t, "path-"+name), URL: "https://edge.example/public/" + name}
 		}
 	}
+	if rapid.IntRange(0, 4).Draw(t, "nested") == 0 {
+		// one path family: the endpoints live below the metadata path (or the metadata path is a prefix of theirs)
+		base := rapid.SampledFrom([]string{"/saml", "/saml/", "/metadata", "/idp", "/"}).Draw(t, "nestedbase")
+		idp.Endpoints["metadata"] = world.EndpointSpec{Path: base}
+		b := strings.TrimSuffix(base, "/")
+		idp.Endpoints["sso"] = world.EndpointSpec{Path: b + "/sso"}
+		idp.Endpoints["slo"] = world.EndpointSpec{Path: strings.TrimPrefix(b+"/slo", "/")}
+		idp.Endpoints["attribute"] = world.EndpointSpec{Path: b + "/attribute"}
+		if rapid.Bool().Draw(t, "nestedcert") {
+			idp.Endpoints["certificate"] = world.EndpointSpec{Path: b + "/certificate"}
+			idp.Endpoints["callback"] = world.EndpointSpec{Path: b + "/login"}
+		}
+	}
 	if rapid.Bool().Draw(t, "mdsig") {
 		idp.MetadataSigAlg = rapid.SampledFrom([]string{world.AlgRSASHA1, world.AlgRSASHA256}).Draw(t, "mdalg")
 	}
